@@ -357,4 +357,236 @@ theorem inverse_eq (conds : CondTab α n m) (ax : Tab α n) (ay : Tab α m) :
 
 end pieces
 
+theorem ofFn_eq_permC (σ : Equiv.Perm (Fin n)) (ρ : Equiv.Perm (Fin m))
+    {g' g : Fin n → Simplex α m} (h : ∀ x, g' x = permS ρ (g (σ x))) :
+    Vector.ofFn g' = permC σ ρ (Vector.ofFn g) := by
+  apply Vector.ext; intro i hi; simp [h]
+
+/-! ### joint domains -/
+
+section joint
+variable {n0 n1 n2 : Nat}
+
+/-- factor-wise permutation of the row-major flattened joint domain:
+    cell `(i, j)` goes to cell `(σ0 i, σ1 j)` -/
+def prodPerm (σ0 : Equiv.Perm (Fin n0)) (σ1 : Equiv.Perm (Fin n1)) : Equiv.Perm (Fin (n0 * n1)) :=
+  (finProdFinEquiv.symm.trans (Equiv.prodCongr σ0 σ1)).trans finProdFinEquiv
+
+theorem idx2_eq_symm (k : Fin (n0 * n1)) : idx2 k = finProdFinEquiv.symm k := rfl
+
+theorem prodPerm_apply (σ0 : Equiv.Perm (Fin n0)) (σ1 : Equiv.Perm (Fin n1)) (k : Fin (n0 * n1)) :
+    prodPerm σ0 σ1 k = finProdFinEquiv (σ0 (idx2 k).1, σ1 (idx2 k).2) := rfl
+
+@[simp] theorem idx2_prodPerm (σ0 : Equiv.Perm (Fin n0)) (σ1 : Equiv.Perm (Fin n1))
+    (k : Fin (n0 * n1)) : idx2 (prodPerm σ0 σ1 k) = (σ0 (idx2 k).1, σ1 (idx2 k).2) := by
+  rw [prodPerm_apply, idx2_eq_symm, Equiv.symm_apply_apply]
+
+/-- three factors: cell `(i, j, l)` goes to `(σ0 i, σ1 j, σ2 l)` -/
+def prodPerm3 (σ0 : Equiv.Perm (Fin n0)) (σ1 : Equiv.Perm (Fin n1)) (σ2 : Equiv.Perm (Fin n2)) :
+    Equiv.Perm (Fin (n0 * n1 * n2)) := prodPerm (prodPerm σ0 σ1) σ2
+
+@[simp] theorem idx3_prodPerm3 (σ0 : Equiv.Perm (Fin n0)) (σ1 : Equiv.Perm (Fin n1))
+    (σ2 : Equiv.Perm (Fin n2)) (k : Fin (n0 * n1 * n2)) :
+    idx3 (prodPerm3 σ0 σ1 σ2 k) = (σ0 (idx3 k).1, σ1 (idx3 k).2.1, σ2 (idx3 k).2.2) := by
+  unfold idx3 prodPerm3
+  simp
+
+variable [Scalar α]
+
+/-- the computation shared by `product2Raw` and `product3Raw` once the three cell tables are built -/
+def rawOf {N : Nat} (p a bb : Tab α N) : Opinion α N :=
+  let u := Tab.reduceMin (Vector.ofFn fun k : Fin N => (p[k] - bb[k]) / a[k])
+  let b : Tab α N := Vector.ofFn fun k => p[k] - a[k] * u
+  ⟨b, u, a⟩
+
+theorem product2Raw_eq (w0 : Opinion α n0) (w1 : Opinion α n1) :
+    product2Raw w0 w1
+      = rawOf (outer2 w0.projection w1.projection) (outer2 w0.a w1.a) (outer2 w0.b w1.b) := rfl
+
+theorem product3Raw_eq (w0 : Opinion α n0) (w1 : Opinion α n1) (w2 : Opinion α n2) :
+    product3Raw w0 w1 w2
+      = rawOf (outer3 w0.projection w1.projection w2.projection) (outer3 w0.a w1.a w2.a)
+          (outer3 w0.b w1.b w2.b) := rfl
+
+end joint
+
+/-! ### validation -/
+
+section validation
+variable [Scalar α]
+
+/-- the accumulate-and-check loop: the label carries no index, so only "all in range" and the sum matter -/
+theorem checkEntries_eq (l : Label) (xs : List α) (acc : α) :
+    checkEntries l xs acc
+      = if xs.all inUnit then .ok (xs.foldl Scalar.add acc) else .error l := by
+  induction xs generalizing acc with
+  | nil => rfl
+  | cons x xs ih =>
+    unfold checkEntries
+    by_cases h : inUnit x
+    · simp [h, ih]
+    · simp [h]
+
+end validation
+
+theorem checkEntries_permT (l : Label) (σ : Equiv.Perm (Fin n)) (v : Tab (XQ f) n) (acc : XQ f) :
+    checkEntries l (permT σ v).toList acc = checkEntries l v.toList acc := by
+  rw [checkEntries_eq, checkEntries_eq, all_toList_permT, (permT_toList_perm σ v).foldl_eq]
+
+theorem checkSimplex_permT (σ : Equiv.Perm (Fin n)) (b : Tab (XQ f) n) (u : XQ f) :
+    checkSimplex (permT σ b) u = checkSimplex b u := by
+  unfold checkSimplex; rw [checkEntries_permT]
+
+theorem checkBaseRate_permT (σ : Equiv.Perm (Fin n)) (a : Tab (XQ f) n) :
+    checkBaseRate (permT σ a) = checkBaseRate a := by
+  unfold checkBaseRate; rw [checkEntries_permT]
+
+/-! ### `sequenceE` (collecting the validated cells of `merge_cond2`) -/
+
+section seq
+variable {ε β : Type} {k : Nat}
+
+theorem mapM_id_ok_iff (l : List (Except ε β)) (r : List β) :
+    l.mapM id = .ok r ↔ l = r.map .ok := by
+  induction l generalizing r with
+  | nil =>
+    cases r <;> simp [pure, Except.pure]
+  | cons x xs ih =>
+    rw [List.mapM_cons]
+    cases x with
+    | error e => cases r <;> simp [bind, Except.bind]
+    | ok a =>
+      cases hxs : xs.mapM id with
+      | error e =>
+        have : ∀ r' : List β, xs ≠ r'.map .ok := by
+          intro r' h'; rw [← ih] at h'; rw [hxs] at h'; cases h'
+        cases r with
+        | nil => simp [bind, Except.bind]
+        | cons b r' => simp [bind, Except.bind, this r']
+      | ok r0 =>
+        have h0 := (ih r0).mp hxs
+        cases r with
+        | nil => simp [bind, Except.bind, pure, Except.pure]
+        | cons b r' =>
+          simp only [bind, Except.bind, pure, Except.pure, id, List.map_cons, List.cons.injEq,
+            Except.ok.injEq]
+          constructor
+          · rintro ⟨rfl, rfl⟩; exact ⟨rfl, h0⟩
+          · rintro ⟨rfl, h1⟩
+            refine ⟨rfl, ?_⟩
+            have := (ih r').mpr h1
+            rw [hxs] at this; cases this; rfl
+
+theorem sequenceE_ok_iff (v : Vector (Except ε β) k) (r : Vector β k) :
+    sequenceE v = .ok r ↔ ∀ i : Fin k, v[i] = .ok r[i] := by
+  have h1 : Vector.toArray <$> v.mapM id = v.toArray.mapM id := Vector.toArray_mapM
+  rw [Array.mapM_eq_mapM_toList] at h1
+  have key : sequenceE v = .ok r ↔ v.toList.mapM id = .ok r.toList := by
+    unfold sequenceE
+    show _ ↔ v.toArray.toList.mapM id = _
+    cases h : v.mapM id with
+    | error e =>
+      rw [h] at h1
+      cases h2 : v.toArray.toList.mapM id with
+      | error e' => simp
+      | ok r' => rw [h2] at h1; simp [Functor.map, Except.map] at h1
+    | ok r0 =>
+      rw [h] at h1
+      cases h2 : v.toArray.toList.mapM id with
+      | error e' => rw [h2] at h1; simp [Functor.map, Except.map] at h1
+      | ok r' =>
+        rw [h2] at h1
+        simp only [Functor.map, Except.map, Except.ok.injEq] at h1
+        simp only [Except.ok.injEq]
+        constructor
+        · rintro rfl
+          show r' = r0.toArray.toList
+          rw [h1]
+        · intro h3
+          apply Vector.toArray_inj.mp
+          rw [h1, h3]; rfl
+  rw [key, mapM_id_ok_iff]
+  constructor
+  · intro h i
+    have := congrArg (fun l => l[i.val]?) h
+    simp at this
+    simpa using this
+  · intro h
+    apply List.ext_getElem
+    · simp
+    · intro i h1 h2
+      simp at h1
+      simpa using h ⟨i, h1⟩
+
+theorem sequenceE_error_iff (v : Vector (Except ε β) k) :
+    (∃ e, sequenceE v = .error e) ↔ ∃ (i : Fin k) (e : ε), v[i] = .error e := by
+  constructor
+  · rintro ⟨e, he⟩
+    by_contra hne
+    push Not at hne
+    have hok : ∀ i : Fin k, ∃ x, v[i] = .ok x := by
+      intro i
+      cases h : v[i] with
+      | error e' => exact absurd h (hne i e')
+      | ok x => exact ⟨x, rfl⟩
+    choose g hg using hok
+    have := (sequenceE_ok_iff v (Vector.ofFn g)).mpr (fun i => by rw [hg i]; simp)
+    rw [he] at this; cases this
+  · rintro ⟨i, e, hi⟩
+    cases h : sequenceE v with
+    | error e' => exact ⟨e', rfl⟩
+    | ok r =>
+      have := (sequenceE_ok_iff v r).mp h i
+      rw [hi] at this; cases this
+
+end seq
+
+/-! ### `merge_cond2` in pieces -/
+
+section merge
+variable [Scalar α] {n1 n2 : Nat}
+
+/-- the joint inverted cells, one (possibly rejected) simplex over X1×X2 per value of Y -/
+def mCells (validate : Bool) (yx1 : CondTab α n1 m) (yx2 : CondTab α n2 m)
+    (ax1 : Tab α n1) (ax2 : Tab α n2) (ay : Tab α m) :
+    Vector (Except Label (Simplex α (n1 * n2))) m :=
+  Vector.ofFn fun y =>
+    if validate then
+      (product2U (Opinion.mk' (inverse yx1 ax1 ((mbr ax1 yx1).getD ay))[y] ax1)
+        (Opinion.mk' (inverse yx2 ax2 ((mbr ax2 yx2).getD ay))[y] ax2)).map Opinion.simplex
+    else
+      .ok (product2L (Opinion.mk' (inverse yx1 ax1 ((mbr ax1 yx1).getD ay))[y] ax1)
+        (Opinion.mk' (inverse yx2 ax2 ((mbr ax2 yx2).getD ay))[y] ax2)).simplex
+
+/-- the final inversion back to conditionals on Y given X1×X2 -/
+def mFinish (ax1 : Tab α n1) (ax2 : Tab α n2) (ay : Tab α m) (x12y : CondTab α m (n1 * n2)) :
+    CondTab α (n1 * n2) m :=
+  inverse x12y ay ((mbr ay x12y).getD (outer2 ax1 ax2))
+
+theorem mergeCond2_eq (validate : Bool) (yx1 : CondTab α n1 m) (yx2 : CondTab α n2 m)
+    (ax1 : Tab α n1) (ax2 : Tab α n2) (ay : Tab α m) :
+    mergeCond2 validate yx1 yx2 ax1 ax2 ay
+      = (sequenceE (mCells validate yx1 yx2 ax1 ax2 ay)).map (mFinish ax1 ax2 ay) := by
+  unfold mergeCond2
+  simp only []
+  generalize hA : (Vector.ofFn _ : Vector (Except Label (Simplex α (n1 * n2))) m) = A
+  have hc : A = mCells validate yx1 yx2 ax1 ax2 ay := by
+    rw [← hA]
+    unfold mCells
+    congr 1
+    funext y
+    split
+    · split <;> simp_all [Except.map]
+    · rfl
+  rw [hc]
+  unfold mFinish
+  cases sequenceE (mCells validate yx1 yx2 ax1 ax2 ay) with
+  | error e => rfl
+  | ok x =>
+    simp only [Except.map]
+    congr 2
+    cases mbr ay x <;> rfl
+
+end merge
+
 end SLV.C15
